@@ -24,6 +24,13 @@ def matcher(kid):
     return deco
 
 
+@matcher("c13-corrupt-size-field-memoryerror")
+def _c13_mem(disc, case):
+    # only this: after a corrupted upload reply a type definition claims more than 16 MB, and a public call then either lets a
+    # MemoryError escape or keeps sending fragments of a value of that size (the check names this one root cause itself)
+    return disc.bucket.startswith("corrupt.oversized-type-definition.")
+
+
 class Known:
     _cache = None
 
